@@ -157,7 +157,9 @@ func sigConcretise(k int, s *sigCase) *b1.Case {
 	if c.Recv {
 		fkey = srcBase[strings.LastIndex(srcBase, ".")+1:] + "." + name
 	}
-	return &b1.Case{ID: core.HashID(string(js)), JSON: js, Func: fkey, Style: c.Style, Decls: d.String(), Notes: notes, Group: group, GroupNotes: groupNotes,
+	// a quarter of the accepted methods of interface Convergen reach it through an embedded interface
+	embedded := group == "" && !s.Shape.Reject && hashMod(string(js), 17, 4) == 0
+	return &b1.Case{ID: core.HashID(string(js)), JSON: js, Func: fkey, Style: c.Style, Decls: d.String(), Notes: notes, Group: group, GroupNotes: groupNotes, Embedded: embedded,
 		Method: fmt.Sprintf("%s(%s) %s", name, strings.Join(params, ", "), results), Alone: s.Shape.Reject, Data: s}
 }
 
@@ -355,7 +357,7 @@ func C08(c *core.Ctx) {
 	for _, j := range []int{0, len(cases) / 2, len(cases) - 1} {
 		c.Sample(map[string]any{"cfg": cases[j].Data.(*sigCase).Cfg, "predicted": cases[j].Data.(*sigCase).Shape, "method": cases[j].Method, "notations": cases[j].Notes})
 	}
-	c.Set("rule", "complete product style x recv x reverse x source pointer x destination pointer x error x 0..3 additional arguments x named/unnamed parameters x named/unnamed results x imported operand types (none/src/dst/both) x import form (path element = package name, version element as name, package name differing from the path, explicit name), each with the header Signature.tla predicts or `reject`; header compared by receiver/parameter/result names and type expressions; rejected combinations travel alone and must exit non-zero")
+	c.Set("rule", "complete product style x recv x reverse x source pointer x destination pointer x error x 0..3 additional arguments x named/unnamed parameters x named/unnamed results x imported operand types (none/src/dst/both) x declared in the converter interface or in an interface it embeds x style from the method or from the interface x import form (path element = package name, version element as name, package name differing from the path, explicit name), each with the header Signature.tla predicts or `reject`; header compared by receiver/parameter/result names and type expressions; rejected combinations travel alone and must exit non-zero")
 }
 
 // ---- C10 static: spec/Hooks.tla ----
@@ -447,6 +449,8 @@ func hookConcretise(k int, h *hookCase) *b1.Case {
 	switch c.Kind {
 	case "ok":
 		fmt.Fprintf(&d, "func %s(d %s, s %s%s)%s %s\n", hname, hd, hs, extra, ret, body)
+	case "funcVar":
+		fmt.Fprintf(&d, "var %s = func(d %s, s %s%s)%s %s\n", hname, hd, hs, extra, ret, body)
 	case "imported":
 		hname = "ext.Hook" + pv(c.HDstPtr) + pv(c.HSrcPtr) + map[bool]string{true: "E", false: "N"}[c.HErr] + map[bool]string{true: "X", false: "N"}[c.HExtra == "all"]
 	case "importedUnexported":
